@@ -140,7 +140,7 @@ Theorem C06_holds_refuted_case_sensitive :
   exists k, k_old2f k = true /\ holds k (run_model k) <> [].
 Proof.
   exists {| k_tftp := true; k_old2f := true; k_cfg := cfg_a; k_tpre := []; k_tsuf := []; k_ttable := None; k_fs := [];
-            k_gdraise := []; k_files := [[SL; 102]]; k_uri := [PCT; 50; 70; 97] |}.
+            k_gdraise := []; k_gdempty := []; k_files := [[SL; 102]]; k_uri := [PCT; 50; 70; 97] |}.
   split; [reflexivity | vm_compute; discriminate].
 Qed.
 
